@@ -614,7 +614,6 @@ class SecopClient(ProxyClient):
             self._rxthread = None
         if io:
             io.disconnect()
-        self.io = None
         # abort pending requests early
         try:  # avoid race condition
             while self.active_requests:
@@ -628,6 +627,9 @@ class SecopClient(ProxyClient):
                 event.set()
         except queue.Empty:
             pass
+        # only now: a caller finding self.io == None reconnects, and connect()
+        # forgets the requests of the old connection
+        self.io = None
 
     def _init_descriptive_data(self, data):
         """rebuild descriptive data"""
